@@ -13,5 +13,8 @@ git -C /repo apply "$out/patch.diff" || { echo "PATCH DOES NOT APPLY"; exit 3; }
 trap 'git -C /repo checkout -- . ; echo "== reverted /repo"' EXIT INT TERM
 cd /verif
 for id in "$@"; do
-  timeout 2400 ./vf check "$id" --tier quick 2>&1 | grep -E "^$id |VIOLATION|what:|detail:|INCONCLUSIVE|SPURIOUS|KNOWN" | cut -c1-260 | head -12
+  timeout 2400 ./vf check "$id" --tier quick > /tmp/try_seed_$$.log 2>&1
+  grep -E "VIOLATION|what:|detail:|INCONCLUSIVE|SPURIOUS|KNOWN" /tmp/try_seed_$$.log | grep -v "^$id " | cut -c1-260 | head -10
+  grep -E "^$id " /tmp/try_seed_$$.log | cut -c1-260 | tail -1
+  rm -f /tmp/try_seed_$$.log
 done
